@@ -119,7 +119,6 @@ def check(inp):
     if inp["kind"] == "history":
         # one sampler, one list object: accepted with two sources and one offset prior; after a third source is appended to the SAME list the
         # next call must refuse it (validation is per call, not per container)
-        import numpy as np
         from astropy.time import Time
         from thejoker import RVData
         S.install_kernel()
